@@ -385,6 +385,7 @@ func (x *Explorer) beginPath(prefix []int64) {
 	x.tags = nil
 	x.chooses = nil
 	x.randBudget, x.randCount = 0, 0
+	mapOrderReverse = mapOrderBase
 	lastPanicWhere = ""
 	x.lemmaSqAbs = false
 	x.pathSteps = 0
@@ -1049,6 +1050,7 @@ func (m *Machine) RunJob(job Job) (res JobResult) {
 		x.MaxCandidates = 8
 	}
 	mapOrderReverse = job.Opts.MapOrder == "reverse"
+	mapOrderBase = mapOrderReverse
 	x.Stats = Stats{}
 	x.Covers = map[string]int{}
 	x.Funcs = map[string]bool{}
